@@ -403,6 +403,7 @@ func c13Funcs() vuego.FuncMap {
 		"fail":    func(s string) (string, error) { return "", fmt.Errorf("boom-%s", s) },
 		"strict":  func(s string) string { return "<" + s + ">" },
 		"u8":      func(u uint8) uint8 { return u + 1 },
+		"pair":    func(a any, b any) any { return fmt.Sprint(a, "+", b) },
 	}
 }
 
@@ -427,6 +428,9 @@ func c13Pipes() []c13Pipe {
 		{"textonly: apostrophe in the first of three literals", `s | joinall("it's", "a", "b")`, "it'shelloahellob", ""},
 		{"textonly: two apostrophes and a comma", `e | default("rock'n'roll, baby")`, "rock'n'roll, baby", ""},
 		{"unknown function", "s | nosuch", "", "nosuch"}, {"unknown in chain", "s | upper | nosuch2 | lower", "", "nosuch2"}, {"too many args", "n | double(1)", "", "double"}, {"too few args", "n | add", "", "add"},
+		// a wrong argument count is an error also when the missing parameters are declared `any`
+		{"too few args, any-typed builtin", "s | default", "", "default"}, {"too few args, any-typed custom", "s | pair", "", "pair"}, {"too few args, any-typed direct call", "pair(s)", "", "pair"},
+		{"too few args in a chain", "s | upper | default | lower", "", "default"}, {"exact args, any-typed custom", "s | pair(n)", "hello+7", ""},
 		{"impossible conversion", "lst | double", "", "double"}, {"non numeric string", "s | double", "", "double"}, {"function error", "s | fail", "", "fail"}, {"function error text", "s | fail", "", "boom-hello"},
 		{"direct unknown", "nosuch3(n)", "", "nosuch3"},
 	}
